@@ -112,7 +112,7 @@ def run(tier):
     for k, pat in enumerate(["%", "%%", "_____", "<%", "%i%", "%l>", "<nil>", "<___>", "nil", "%n%", "NULL", "%U%"]):
         scen.append(like_scen(pat, ["a", None, "<nil>", None, "null", "NULL"], "case", "sync" if k % 2 else "emit"))
     seqfam.run_scenarios(res, scen, "TraceDirect", tag="like")
-    hav = [having_scen(rng, ["like", "notnull", "isnull", "like_and_notnull", "notnull_and_like"], ["a%", "%b", "a_", "%", "%a%", "a%b", "x%aab", "_"]) for _ in range(150 if quick else 1500)]
+    hav = [having_scen(rng, ["like", "notnull", "isnull", "like_and_notnull", "notnull_and_like"], ["a%", "%b", "a_", "%", "%a%", "a%b", "x%aab", "_"]) for _ in range(150 if quick else 5000)]
     seqfam.run_scenarios(res, hav, "TracePostAgg", tag="having")
     scen += hav
     seqfam.run_pinned(res, "TraceDirect")
